@@ -64,6 +64,8 @@ func f(db *DB) { if skip(db) { return }; site() }`, "site", []string{"N:db.Error
 func f(db *DB) { if !pred(db) { return }; kill(db); site() }`, "site", nil, []string{"N:db.Error"}},
 	{"if-init-snapshot-of-path", `func f(db *DB) { if e := db.Error; e != nil { return }; site() }`, "site", []string{"N:db.Error"}, nil},
 	{"if-init-snapshot-killed", `func f(db *DB) { if e := db.Error; e != nil { return }; kill(db); site() }`, "site", nil, []string{"N:db.Error"}},
+	{"snapshot-local-of-path", `func f(db *DB) { err := db.Error; if err != nil { return }; site() }`, "site", []string{"N:db.Error", "N:err"}, nil},
+	{"snapshot-stale-after-write", `func f(db *DB) { err := db.Error; db.Error = nil; db = nil; if err != nil { return }; site() }`, "site", []string{"N:err"}, []string{"N:db.Error"}},
 	{"call-kills-config", `func f(db *DB) { if db.Error != nil { return }; kill(db); site() }`, "site", nil, []string{"N:db.Error"}},
 }
 
